@@ -594,6 +594,21 @@ func c36Kind(data []byte) string {
 func (w *c36World) detail(extra m) m {
 	d := m{"config": w.cfg.String(), "history": append(append([]string{}, w.hist...), w.cur+" (in progress)"),
 		"remote_allow_list": c36Allows[w.cfg.Allow].Global, "remote_allow_ranges": c36Allows[w.cfg.Allow].Ranges, "my_networks": fmt.Sprint(w.ref.myNets)}
+	lists := m{}
+	for _, e := range append(append([]string{}, w.hist...), w.cur) {
+		f := strings.Split(e, ":")
+		if l, ok := c36Lists[f[len(f)-1]]; ok {
+			lists[f[len(f)-1]] = m{"v4": c36Strs(l.v4), "v6": c36Strs(l.v6)}
+		}
+		if e == "dns" {
+			lists["dns"] = c36Strs(c36DnsSet)
+		}
+	}
+	d["address_lists"] = lists
+	if w.cfg.Src == c36SrcStatic {
+		d["static_host_map_of_P"] = c36Strs(c36StaticP)
+	}
+	d["events"] = "reply:<host>:<list> HostQueryReply from the lighthouse; update:<list> HostUpdateNotification from P; punch:<list> HostPunchNotification about P, then the punch jobs run; data: tun packet for P; tick: handshake timer; rehs: StartHandshake(P); cm: connection-manager tick; close:<host>; from:<addr>: P's packets to me arrive from addr; dns: new DNS result set for static P; net/hop/netrev/drop: deliver all / one hop / reversed / lose what is in flight"
 	for k, v := range extra {
 		d[k] = v
 	}
